@@ -52,6 +52,8 @@ def run_property(ctx, mask, monitor, signature, streams, nontrivial=None):
                 recipe, _ = X.gen_twins(rng, gen=name)
             elif kw.get('burst'):
                 recipe, _ = X.gen_burst(rng, gen=name)
+            elif kw.get('overlap'):
+                recipe, _ = X.gen_overlap(rng, gen=name)
             else:
                 recipe, _ = X.gen_history(rng, gen=name, **kw)
             recipe['case_index'] = i
